@@ -527,9 +527,9 @@ def nvertsPre (o : RObj) (f : String) (v : Val) : Except Exc Unit :=
       | .ok false => .ok ()
   else .ok ()
 
-/-- `setattr(obj, f, v)`: class-level `__setattr__` checks, then `RegionAttribute.__set__` =
-(coerce,) validate, THEN store. -/
-def RObj.assign (o : RObj) (f : String) (v : Val) : Except Exc RObj :=
+/-- the store part of `setattr(obj, f, v)`: class-level `__setattr__` checks, then
+`RegionAttribute.__set__` = (coerce,) validate, THEN store. -/
+def RObj.assignCore (o : RObj) (f : String) (v : Val) : Except Exc RObj :=
   -- [F14] the annulus classes would first run a check of `v` against the other size of its
   -- (inner, outer) pair: validate `v`, then `inner >= outer → ValueError` (proposed_fixes/F14.diff)
   match nvertsPre o f v with
@@ -546,6 +546,36 @@ def RObj.assign (o : RObj) (f : String) (v : Val) : Except Exc RObj :=
   | some .readonly => .error .attributeError
   | some .plain => .ok (o.set f v)
   | none => .ok (o.set f v)
+
+/-- the vertices computed by `RegularPolygonPixelRegion._calc_vertices` (floating-point
+trigonometry: an opaque 1-D PixCoord).  `np.arange(nvertices)` raises `ValueError` for NaN / inf
+and for a count beyond any addressable array (2^60 eight-byte elements: "array is too big" /
+"Maximum allowed size exceeded").  Counts that are addressable but exceed the machine's memory
+(`MemoryError`) are outside the model and outside the generated inputs. -/
+def calcVertices (nv : Val) : Except Exc Val :=
+  match nv.num with
+  | .fin q =>
+      if q < 1152921504606846976 then
+        .ok { kind := .pixCoord, scalar := false, ndim := 1, tag := "<derived>" }
+      else .error .valueError
+  | _ => .error .valueError
+
+/-- `RegularPolygonPixelRegion._params`: the parameters its vertices are computed from. -/
+def regPolyParams : List String := ["center", "nvertices", "radius", "angle"]
+
+/-- `setattr(obj, f, v)`.  For a constructed regular polygon (`'vertices' in self.__dict__`) an
+assignment to a defining parameter stores the value, recomputes the vertices and – if that raises –
+puts the old value back and re-raises (32d7f72, d3bcfe5); for every other class / attribute it is
+the store alone. -/
+def RObj.assign (o : RObj) (f : String) (v : Val) : Except Exc RObj :=
+  match o.assignCore f v with
+  | .error e => .error e
+  | .ok o1 =>
+    if o.cls = .regPolyP ∧ regPolyParams.contains f = true ∧ (o.get "vertices").isSome = true then
+      match calcVertices ((o1.get "nvertices").getD vNone) with
+      | .error e => .error e
+      | .ok d => .ok ((o1.set "_vertices" d).set "vertices" d)
+    else .ok o1
 
 /-- `delattr(obj, f)`: `RegionAttribute.__delete__` always raises. -/
 def RObj.delete (o : RObj) (f : String) : Except Exc RObj :=
@@ -576,12 +606,6 @@ def orDefault (v dflt : Val) : Except Exc Val :=
   | .error e => .error e
   | .ok true => .ok v
   | .ok false => .ok dflt
-
-/-- the vertices computed by `RegularPolygonPixelRegion._calc_vertices` (floating-point
-trigonometry: an opaque 1-D PixCoord); `np.arange(nvertices)` raises for NaN / inf. -/
-def calcVertices (nv : Val) : Except Exc Val :=
-  if nv.num.isFinite then .ok { kind := .pixCoord, scalar := false, ndim := 1, tag := "<derived>" }
-  else .error .valueError
 
 def pixOrigin0 : Val := { kind := .pixCoord, scalar := true, tag := "PixCoord(0,0)" }
 
@@ -629,14 +653,17 @@ def ctorPlan (c : Cls) (a : CtorArgs) : List (String × Except Exc Val) :=
   | .textP | .textS => argPlan a ["center"] ++ metaVisualPlan a ++ argPlan a ["text"]
   | .compP | .compS => argPlan a ["region1", "region2"]
 
-/-- run the stores in order; the first failing value computation or validation aborts. -/
+/-- run the stores in order; the first failing value computation or validation aborts.
+(Inside `__init__` the recomputation of `RObj.assign` never runs: it is guarded by
+`name in self._params and 'vertices' in self.__dict__`, and every constructor stores `vertices` –
+which is not in `_params` – last; so the stores are `assignCore`.) -/
 def assignSeq : RObj → List (String × Except Exc Val) → Except Exc RObj
   | o, [] => .ok o
   | o, (f, ev) :: t =>
       match ev with
       | .error e => .error e
       | .ok v =>
-        match o.assign f v with
+        match o.assignCore f v with
         | .error e => .error e
         | .ok o' => assignSeq o' t
 
